@@ -16,6 +16,16 @@ Definition lowok (b : bool) (e : ev) : Prop :=
   | ESample _ | EErr _ => True
   | EAns _ | EDisc | EPacket _ _ | ERet _ => False
   end.
+(* events of the stores *)
+Definition stok (e : ev) : Prop :=
+  match e with
+  | EStore f => f = true
+  | ETs k _ => k <> 2
+  | EErr _ => True
+  | _ => False
+  end.
+Lemma stok_lowok b e : stok e -> lowok b e.
+Proof. destruct e; cbn; intuition. Qed.
 Definition midok (b : bool) (e : ev) : Prop :=
   match e with EPacket _ _ => True | _ => lowok b e end.
 (* events of any block run with flag b on entry *)
@@ -72,24 +82,39 @@ Proof.
   eapply ext_logs; [reflexivity|]. repeat constructor; cbn; auto.
 Qed.
 
-Lemma do_ser_blk d w o v : c_in_ts (w_c w) = true -> blk (lowok true) true w (do_ser d w o v).
+Lemma do_ser_blk d w o v : c_in_ts (w_c w) = true -> blk stok true w (do_ser d w o v).
 Proof.
   intros H. rewrite do_ser_eq. destruct (ser _ _ _ _ _ _); split; up; auto;
     (eapply ext_logs; [reflexivity|]; repeat constructor; cbn; auto).
 Qed.
 
+Lemma fail_blk (P : ev -> Prop) b w n : c_in_ts (w_c w) = b -> P (EErr n) -> blk P b w (fail w n).
+Proof. intros H HP. split; up; auto. eapply ext_logs; [reflexivity|]. repeat constructor; auto. Qed.
+
+Lemma logev_blk (P : ev -> Prop) b w e : c_in_ts (w_c w) = b -> P e -> blk P b w (logev w e).
+Proof. intros H HP. split; up; auto. eapply ext_logs; [reflexivity|]. repeat constructor; auto. Qed.
+
+(* a context update that keeps the flag and the log *)
+Lemma setc_blk (P : ev -> Prop) b w w' c :
+  blk P b w w' -> c_in_ts c = b -> blk P b w (set_c w' c).
+Proof. intros [A E] H. split; [up; auto|]. eapply ext_eq_log_r; [|exact E]. reflexivity. Qed.
+Lemma setc_blk_l (P : ev -> Prop) b w w' c :
+  blk P b (set_c w c) w' -> blk P b w w'.
+Proof. intros [A E]. split; [auto|]. eapply ext_eq_log; [|exact E]. reflexivity. Qed.
+
 Lemma write_saved_blk d w n v :
-  c_in_ts (w_c w) = true -> blk (lowok true) true w (write_saved d w n v).
+  c_in_ts (w_c w) = true -> blk stok true w (write_saved d w n v).
 Proof.
   intros H. unfold write_saved.
   destruct (has_member _ _); [|apply blk_refl; auto].
   destruct (pc_member_op d n) as [[al k size off| | | |]|];
-    try (split; up; auto; eapply ext_logs; [reflexivity|]; repeat constructor; cbn; auto).
-  destruct (skip_index _ _ _);
-    try (split; up; auto; eapply ext_logs; [reflexivity|]; repeat constructor; cbn; auto).
-  match goal with |- blk _ _ _ (set_c (do_ser d ?w0 ?o ?v) _) =>
-    destruct (do_ser_blk d w0 o v) as [A E]; [up; auto|] end.
-  split; [up; auto|]. eapply ext_eq_log_r; [|eapply ext_eq_log; [|exact E]]; reflexivity.
+    try (apply fail_blk; cbn; auto).
+  destruct (skip_index _ _ _); try (apply fail_blk; cbn; auto).
+  cbv zeta. apply setc_blk.
+  - eapply setc_blk_l. apply do_ser_blk. up; auto.
+  - match goal with |- context [do_ser d ?w0 ?o ?v] =>
+      destruct (do_ser_blk d w0 o v) as [A E]; [up; auto|] end.
+    up. exact A.
 Qed.
 
 Lemma preamble_blk d b w f :
@@ -101,31 +126,418 @@ Proof.
   - apply clock_cb_blk; auto.
 Qed.
 
-Lemma open_core_blk d ts b w : c_in_ts (w_c w) = b -> blk (lowok b) b w (open_core d ts w).
+Lemma opt_ser_blk d w (oo : option op) v :
+  c_in_ts (w_c w) = true ->
+  blk stok true w (match oo with Some o => do_ser d w o v | None => w end).
+Proof. intros H. destruct oo; [apply do_ser_blk; auto|apply blk_refl; auto]. Qed.
+
+Lemma opt_log_blk (P : ev -> Prop) b w (c : bool) e :
+  c_in_ts (w_c w) = b -> P e -> blk P b w (if c then logev w e else w).
+Proof. intros H HP. destruct c; [apply logev_blk; auto|apply blk_refl; auto]. Qed.
+
+(* the opening function proper: the flag is restored, only stores are logged *)
+Lemma open_do_blk d ts w : blk stok (c_in_ts (w_c w)) w (open_do d ts w).
 Proof.
-  intros H. unfold open_core.
+  unfold open_do.
+  assert (B1 : blk stok true w (open_reset w)).
+  { split; [reflexivity|apply ext_same; reflexivity]. }
+  assert (B2 : blk stok true w (open_hdr d (open_reset w))).
+  { eapply blk_trans; [exact B1|]. unfold open_hdr. apply opt_ser_blk, B1. }
+  assert (B3 : blk stok true w (open_mark d ts (open_hdr d (open_reset w)))).
+  { eapply blk_trans; [exact B2|]. unfold open_mark. apply opt_log_blk; [apply B2|cbn; discriminate]. }
+  match goal with |- blk _ _ _ (open_fin _ ?W) => assert (B4 : blk stok true w W) end.
+  { eapply blk_trans; [exact B3|]. unfold open_pc. apply do_ser_blk, B3. }
+  destruct B4 as [A E]. split; [reflexivity|].
+  eapply ext_eq_log_r; [|exact E]. reflexivity.
+Qed.
+
+Lemma open_core_blk d ts w : blk stok (c_in_ts (w_c w)) w (open_core d ts w).
+Proof.
+  unfold open_core.
   destruct (negb (c_enabled (w_c w)) && negb (c_in_ts (w_c w))) eqn:E1.
   { split; [up|apply ext_same; reflexivity].
     rewrite andb_true_iff, !negb_true_iff in E1. destruct E1 as [_ E1]. congruence. }
-  cbv zeta. up. destruct (c_open (w_c w)) eqn:E2.
-  { split; [up; auto|apply ext_same; reflexivity]. }
-  match goal with |- blk _ _ _ (set_c ?W _) => assert (B : blk (lowok true) true w W) end.
-  { eapply blk_trans; [eapply blk_trans; [eapply blk_trans|]|].
-    - instantiate (1 := mk_w _ _ _ _ _ _). split; [up; reflexivity|apply ext_same; reflexivity].
-    - destruct (snd (ph_build d)); [apply do_ser_blk; reflexivity|apply blk_refl; reflexivity].
-    - match goal with |- blk _ _ ?W0 (if ?c then _ else _) => destruct c end.
-      + split; [up|].
-        * match goal with |- c_in_ts (w_c ?W0) = true =>
-            assert (c_in_ts (w_c W0) = true); [|assumption] end.
-          destruct (snd (ph_build d)); [apply do_ser_blk; reflexivity|reflexivity].
-        * eapply ext_logs; [reflexivity|]. repeat constructor. cbn. discriminate.
-      + apply blk_refl. destruct (snd (ph_build d)); [apply do_ser_blk; reflexivity|reflexivity].
-    - apply do_ser_blk.
-      match goal with |- context [if ?c then _ else _] => destruct c end; up;
-        (destruct (snd (ph_build d)); [apply do_ser_blk; reflexivity|reflexivity]). }
-  destruct B as [A E]. split; [up; auto|].
-  eapply ext_eq_log_r; [|eapply ext_mono; [|exact E]]; [reflexivity|].
-  intros e He. destruct e; cbn in *; auto. destruct He as [-> He].
-  (* no callback entry at all in the stores: but lowok true would give flag = true; the clock is
-     never read here, so this case cannot be reached through the weaker class: re-prove directly *)
-Abort.
+  destruct (c_open (w_c w)) eqn:E2.
+  { split; [reflexivity|apply ext_same; reflexivity]. }
+  apply open_do_blk.
+Qed.
+
+Lemma close_do_blk d ts w : blk stok (c_in_ts (w_c w)) w (close_do d ts w).
+Proof.
+  unfold close_do.
+  assert (B1 : blk stok true w (close_begin w)).
+  { split; [reflexivity|apply ext_same; reflexivity]. }
+  assert (B2 : blk stok true w (close_mark d ts (close_begin w))).
+  { eapply blk_trans; [exact B1|]. unfold close_mark. apply opt_log_blk; [apply B1|cbn; discriminate]. }
+  match goal with |- blk _ _ _ (close_fin _ _ ?W) => assert (B3 : blk stok true w W) end.
+  { unfold close_ws. cbv zeta.
+    eapply blk_trans; [eapply blk_trans; [eapply blk_trans; [exact B2|]|]|].
+    - apply write_saved_blk, B2.
+    - apply write_saved_blk. apply write_saved_blk, B2.
+    - apply write_saved_blk. apply write_saved_blk. apply write_saved_blk, B2. }
+  destruct B3 as [A E]. split; [reflexivity|].
+  eapply ext_eq_log_r; [|exact E]. reflexivity.
+Qed.
+
+Lemma close_core_blk d ts w : blk stok (c_in_ts (w_c w)) w (close_core d ts w).
+Proof.
+  unfold close_core.
+  destruct (negb (c_enabled (w_c w)) && negb (c_in_ts (w_c w))) eqn:E1.
+  { split; [up|apply ext_same; reflexivity].
+    rewrite andb_true_iff, !negb_true_iff in E1. destruct E1 as [_ E1]. congruence. }
+  destruct (negb (c_open (w_c w))) eqn:E2.
+  { split; [reflexivity|apply ext_same; reflexivity]. }
+  apply close_do_blk.
+Qed.
+
+Lemma open_fn_blk d b w : c_in_ts (w_c w) = b -> blk (lowok b) b w (open_fn d w).
+Proof.
+  intros H. rewrite open_fn_eq.
+  pose proof (preamble_blk d b w (has_member (d_pc d) "timestamp_begin") H) as B.
+  eapply blk_trans; [exact B|].
+  destruct B as [A _]. rewrite <- A at 2.
+  eapply blk_mono; [|apply open_core_blk]. intros; apply stok_lowok; auto.
+Qed.
+
+Lemma close_fn_blk d b w : c_in_ts (w_c w) = b -> blk (lowok b) b w (close_fn d w).
+Proof.
+  intros H. rewrite close_fn_eq.
+  pose proof (preamble_blk d b w (has_member (d_pc d) "timestamp_end") H) as B.
+  eapply blk_trans; [exact B|].
+  destruct B as [A _]. rewrite <- A at 2.
+  eapply blk_mono; [|apply close_core_blk]. intros; apply stok_lowok; auto.
+Qed.
+
+(* ------------------------------------------------------------------ callbacks *)
+Lemma cb_enter_flag k w : c_in_ts (w_c (cb_enter k w)) = c_in_ts (w_c w).
+Proof. unfold cb_enter; up; togs; reflexivity. Qed.
+
+(* precise shape: the callback entry with the flag and packet_is_open at that moment, then events
+   of the opening function *)
+Lemma open_cb_shape d b w :
+  c_in_ts (w_c w) = b ->
+  c_in_ts (w_c (open_cb d w)) = b /\ exists seg, w_log (open_cb d w) = w_log w ++ ECb 1 b (c_open (w_c w)) :: seg /\ Forall (lowok b) seg.
+Proof.
+  intros H. rewrite open_cb_eq.
+  destruct (open_fn_blk d b (cb_enter 1 w)) as [A [seg [E F]]]; [rewrite cb_enter_flag; auto|].
+  split; auto. exists seg. split; auto. rewrite E. unfold cb_enter; up. rewrite <- app_assoc, H. reflexivity.
+Qed.
+
+Lemma close_hand_blk d a o b w :
+  c_in_ts (w_c w) = b -> blk (midok b) b w (close_hand d a o w).
+Proof.
+  intros H. unfold close_hand. destruct (o && negb (c_open (w_c w))); [|apply blk_refl; auto].
+  cbv zeta. destruct (a_newbuf a).
+  - apply setc_blk; [apply logev_blk; cbn; auto|up; auto].
+  - apply logev_blk; cbn; auto.
+Qed.
+
+Lemma close_cb_shape d b w :
+  c_in_ts (w_c w) = b ->
+  c_in_ts (w_c (close_cb d w)) = b /\ exists seg, w_log (close_cb d w) = w_log w ++ ECb 2 b (c_open (w_c w)) :: seg /\ Forall (midok b) seg.
+Proof.
+  intros H. rewrite close_cb_eq.
+  assert (B : blk (midok b) b (cb_enter 2 w)
+                  (close_hand d (hd_ans w) (c_open (w_c w)) (close_fn d (cb_enter 2 w)))).
+  { eapply blk_trans.
+    - eapply blk_mono; [|apply close_fn_blk; rewrite cb_enter_flag; exact H].
+      intros; apply lowok_midok; auto.
+    - apply close_hand_blk. apply close_fn_blk. rewrite cb_enter_flag; exact H. }
+  destruct B as [A [seg [E F]]]. split; auto. exists seg. split; auto.
+  rewrite E. unfold cb_enter; up. rewrite <- app_assoc, H. reflexivity.
+Qed.
+
+Lemma open_cb_blk d b w : c_in_ts (w_c w) = b -> blk (evok b) b w (open_cb d w).
+Proof.
+  intros H. destruct (open_cb_shape d b w H) as [A [seg [E F]]]. split; auto.
+  eapply ext_logs; [exact E|]. constructor; [cbn; auto|].
+  eapply Forall_impl; [|exact F]. intros; apply lowok_evok; auto.
+Qed.
+
+Lemma close_cb_blk d b w : c_in_ts (w_c w) = b -> blk (evok b) b w (close_cb d w).
+Proof.
+  intros H. destruct (close_cb_shape d b w H) as [A [seg [E F]]]. split; auto.
+  eapply ext_logs; [exact E|]. constructor; [cbn; auto|].
+  eapply Forall_impl; [|exact F]. intros; apply midok_evok; auto.
+Qed.
+
+Lemma with_use_ts_blk (P : ev -> Prop) b f w :
+  (forall w, c_in_ts (w_c w) = b -> blk P b w (f w)) ->
+  c_in_ts (w_c w) = b -> blk P b w (with_use_ts f w).
+Proof.
+  intros Hf H. unfold with_use_ts. apply setc_blk.
+  - eapply setc_blk_l. apply Hf. up; auto.
+  - match goal with |- context [f ?w0] => destruct (Hf w0) as [A _]; [up; auto|] end.
+    up. exact A.
+Qed.
+
+Lemma no_space_blk b w : c_in_ts (w_c w) = b -> blk (evok b) b w (snd (no_space w)).
+Proof. intros H. rewrite no_space_eq. split; up; auto. eapply ext_logs; [reflexivity|]. repeat constructor. Qed.
+
+(* ------------------------------------------------------------------ reserve, serialization *)
+Lemma reserve_blk d b w n : c_in_ts (w_c w) = b -> blk (evok b) b w (snd (reserve d w n)).
+Proof.
+  intros H.
+  apply (reserve_inv d (fun w' => blk (evok b) b w w')); [| | | | |apply blk_refl; auto].
+  - intros w' B. eapply blk_trans; [exact B|]. apply full_cb_blk, B.
+  - intros w' B. eapply blk_trans; [exact B|].
+    apply with_use_ts_blk; [intros; apply open_cb_blk; auto|apply B].
+  - intros w' B. eapply blk_trans; [exact B|].
+    apply with_use_ts_blk; [intros; apply close_cb_blk; auto|apply B].
+  - intros w' B. eapply blk_trans; [exact B|]. apply no_space_blk, B.
+  - intros w' B. eapply blk_trans; [exact B|]. apply fail_blk; [apply B|cbn; auto].
+Qed.
+
+Lemma ser_parts_blk d ps w : c_in_ts (w_c w) = true -> blk stok true w (ser_parts d w ps).
+Proof.
+  unfold ser_parts. revert w. induction ps as [|[o v] ps IH]; intros w H; cbn [fold_left].
+  - apply blk_refl; auto.
+  - destruct (w_err w).
+    + apply IH; auto.
+    + eapply blk_trans; [apply do_ser_blk; auto|]. apply IH. apply do_ser_blk; auto.
+Qed.
+
+(* ------------------------------------------------------------------ tracing function *)
+Definition entry_seg (d : dstm) (w : world) : list ev :=
+  if d_has_clock d
+  then [ECb 3 (c_in_ts (w_c w)) (c_open (w_c w)); ESample (clk_next d w)] else [].
+
+Lemma trace_entry_log d w : w_log (trace_entry d w) = w_log w ++ entry_seg d w.
+Proof.
+  unfold trace_entry, entry_seg. destruct (d_has_clock d); [|rewrite app_nil_r; reflexivity].
+  rewrite clock_cb_eq. up. reflexivity.
+Qed.
+Lemma trace_entry_flag d w : c_in_ts (w_c (trace_entry d w)) = c_in_ts (w_c w).
+Proof.
+  unfold trace_entry. destruct (d_has_clock d); [|reflexivity].
+  rewrite clock_cb_eq. up. togs. reflexivity.
+Qed.
+
+Lemma stok_tevok e : stok e -> tevok e.
+Proof. destruct e; cbn; auto. Qed.
+
+Lemma trace_commit_blk d w :
+  c_in_ts (w_c w) = true ->
+  c_in_ts (w_c (trace_commit d w)) = false /\ ext tevok w (trace_commit d w).
+Proof.
+  intros H. unfold trace_commit. split; [up; reflexivity|]. cbv zeta.
+  match goal with |- ext _ _ (set_c ?W _) => apply (ext_eq_log_r _ _ W); [reflexivity|] end.
+  destruct (_ =? _); [|apply ext_refl].
+  eapply ext_mono; [|apply close_cb_blk; exact H]. intros; apply evok_tevok; auto.
+Qed.
+
+Lemma trace_ser_blk d e args w :
+  c_in_ts (w_c w) = true ->
+  (w_err (trace_ser d e args w) = false -> c_in_ts (w_c (trace_ser d e args w)) = false) /\ ext tevok w (trace_ser d e args w).
+Proof.
+  intros H. unfold trace_ser.
+  assert (B1 : blk tevok true w (trace_mark d w)).
+  { unfold trace_mark. apply opt_log_blk; cbn; auto. }
+  assert (B2 : blk tevok true w
+                 (ser_parts d (trace_mark d w) (rec_parts d e (c_last_ts (w_c (trace_mark d w))) args))).
+  { eapply blk_trans; [exact B1|]. eapply blk_mono; [|apply ser_parts_blk, B1].
+    intros; apply stok_tevok; auto. }
+  cbv zeta. destruct (w_err (ser_parts _ _ _)) eqn:Ee.
+  - split; [congruence|apply B2].
+  - destruct (trace_commit_blk d _ (proj1 B2)) as [A E]. split; [auto|].
+    eapply ext_trans; [apply B2|exact E].
+Qed.
+
+Lemma trace_body_blk d e args w :
+  (w_err (trace_body d e args w) = false -> c_in_ts (w_c (trace_body d e args w)) = false) /\ ext tevok w (trace_body d e args w).
+Proof.
+  unfold trace_body. cbv zeta.
+  destruct (size_parts _ _).
+  2:{ split; [up; discriminate|]. eapply ext_logs; [reflexivity|]. repeat constructor. }
+  match goal with |- context [reserve d ?w0 ?n] =>
+    destruct (reserve_blk d true w0 n) as [A E]; [reflexivity|];
+    assert (E' : ext tevok w (snd (reserve d w0 n)))
+      by (eapply ext_eq_log; [|eapply ext_mono; [|exact E]]; [reflexivity|intros; apply evok_tevok; auto]);
+    clear E; set (r := reserve d w0 n) in * end.
+  destruct (negb (fst r)).
+  { split; [up; reflexivity|]. eapply ext_eq_log_r; [|exact E']. reflexivity. }
+  destruct (w_err (snd r)) eqn:Ee.
+  { split; [congruence|exact E']. }
+  destruct (trace_ser_blk d e args (snd r) A) as [A2 E2]. split; auto.
+  eapply ext_trans; eauto.
+Qed.
+
+(* C16 (b): the log segment of one tracing call is the entry clock sample (flag as on entry)
+   followed by events whose callback entries and stores all carry flag = 1 *)
+Theorem trace_fn_segment d e args w :
+  exists rest,
+    w_log (trace_fn d e args w) = w_log w ++ entry_seg d w ++ rest /\ Forall tevok rest.
+Proof.
+  rewrite trace_fn_eq. destruct (negb _).
+  - exists []. rewrite app_nil_r. split; [apply trace_entry_log|constructor].
+  - destruct (trace_body_blk d e args (trace_entry d w)) as [_ [seg [E F]]].
+    exists seg. split; auto. rewrite E, trace_entry_log, app_assoc. reflexivity.
+Qed.
+
+Theorem trace_fn_flag_off d e args w :
+  c_in_ts (w_c w) = false -> w_err (trace_fn d e args w) = false ->
+  c_in_ts (w_c (trace_fn d e args w)) = false.
+Proof.
+  rewrite trace_fn_eq. intros H. destruct (negb _).
+  - intros _. rewrite trace_entry_flag. exact H.
+  - apply trace_body_blk.
+Qed.
+
+Lemma entry_seg_store d w : Forall store_ok (entry_seg d w).
+Proof. unfold entry_seg. destruct (d_has_clock d); repeat constructor. Qed.
+
+(* ------------------------------------------------------------------ use_cur_last_event_ts *)
+Lemma do_ser_use d w o v : c_use_ts (w_c (do_ser d w o v)) = c_use_ts (w_c w).
+Proof. rewrite do_ser_eq. destruct (ser _ _ _ _ _ _); reflexivity. Qed.
+
+Lemma write_saved_use d w n v : c_use_ts (w_c (write_saved d w n v)) = c_use_ts (w_c w).
+Proof.
+  unfold write_saved. destruct (has_member _ _); [|reflexivity].
+  destruct (pc_member_op d n) as [[al k size off| | | |]|]; try reflexivity.
+  destruct (skip_index _ _ _); try reflexivity.
+  cbv zeta. up. rewrite do_ser_use. reflexivity.
+Qed.
+
+Lemma clock_cb_use d w : c_use_ts (w_c (snd (clock_cb d w))) = c_use_ts (w_c w).
+Proof. rewrite clock_cb_eq. up. togs. reflexivity. Qed.
+
+Lemma preamble_use d w f : c_use_ts (w_c (snd (preamble_ts d w f))) = c_use_ts (w_c w).
+Proof.
+  destruct (preamble_cases d w f) as [[E _]|[[E _]|[E _]]]; rewrite E; try reflexivity.
+  apply clock_cb_use.
+Qed.
+
+Lemma open_core_use d ts w : c_use_ts (w_c (open_core d ts w)) = c_use_ts (w_c w).
+Proof.
+  unfold open_core. destruct (_ && _); [reflexivity|].
+  destruct (c_open (w_c w)); [reflexivity|].
+  unfold open_do, open_fin, open_pc, open_mark, open_hdr. cbv zeta. up. rewrite do_ser_use.
+  match goal with |- context [if ?c then _ else _] => destruct c end; up;
+    (destruct (snd (ph_build d)); [rewrite do_ser_use|]; reflexivity).
+Qed.
+
+Lemma close_core_use d ts w : c_use_ts (w_c (close_core d ts w)) = c_use_ts (w_c w).
+Proof.
+  unfold close_core. destruct (_ && _); [reflexivity|].
+  destruct (negb (c_open (w_c w))); [reflexivity|].
+  unfold close_do, close_fin, close_ws, close_mark. cbv zeta. up. rewrite !write_saved_use.
+  match goal with |- context [if ?c then _ else _] => destruct c end; reflexivity.
+Qed.
+
+Lemma open_cb_use d w : c_use_ts (w_c (open_cb d w)) = c_use_ts (w_c w).
+Proof.
+  rewrite open_cb_eq, open_fn_eq, open_core_use, preamble_use. unfold cb_enter; up; togs. reflexivity.
+Qed.
+
+Lemma close_cb_use d w : c_use_ts (w_c (close_cb d w)) = c_use_ts (w_c w).
+Proof.
+  rewrite close_cb_eq. unfold close_hand. cbv zeta.
+  assert (H : c_use_ts (w_c (close_fn d (cb_enter 2 w))) = c_use_ts (w_c w)).
+  { rewrite close_fn_eq, close_core_use, preamble_use. unfold cb_enter; up; togs. reflexivity. }
+  destruct (_ && _); [|exact H]. destruct (a_newbuf _); up; exact H.
+Qed.
+
+Lemma with_use_ts_off f w : c_use_ts (w_c (with_use_ts f w)) = false.
+Proof. reflexivity. Qed.
+
+Lemma reserve_use d w n : c_use_ts (w_c w) = false -> c_use_ts (w_c (snd (reserve d w n))) = false.
+Proof.
+  apply (reserve_inv d (fun w' => c_use_ts (w_c w') = false)); intros w' H'; try reflexivity.
+  - rewrite full_cb_eq. up. togs. exact H'.
+  - exact H'.
+  - exact H'.
+Qed.
+
+Lemma ser_parts_use d ps w : c_use_ts (w_c (ser_parts d w ps)) = c_use_ts (w_c w).
+Proof.
+  unfold ser_parts. revert w. induction ps as [|[o v] ps IH]; intros w; cbn [fold_left]; [reflexivity|].
+  rewrite IH. destruct (w_err w); [reflexivity|apply do_ser_use].
+Qed.
+
+Lemma trace_fn_use d e args w :
+  c_use_ts (w_c w) = false -> c_use_ts (w_c (trace_fn d e args w)) = false.
+Proof.
+  intros H. rewrite trace_fn_eq.
+  assert (H1 : c_use_ts (w_c (trace_entry d w)) = false).
+  { unfold trace_entry. destruct (d_has_clock d); [|exact H]. up. rewrite clock_cb_use. exact H. }
+  destruct (negb _); [exact H1|].
+  unfold trace_body. cbv zeta. destruct (size_parts _ _); [|up; exact H1].
+  match goal with |- context [reserve d ?w0 ?n] =>
+    pose proof (reserve_use d w0 n H1) as H2; set (r := reserve d w0 n) in * end.
+  destruct (negb (fst r)); [up; exact H2|]. destruct (w_err (snd r)); [exact H2|].
+  unfold trace_ser. cbv zeta.
+  match goal with |- context [ser_parts d ?w1 ?ps] =>
+    assert (H3 : c_use_ts (w_c (ser_parts d w1 ps)) = false) end.
+  { rewrite ser_parts_use. unfold trace_mark. destruct (_ && _); up; exact H2. }
+  destruct (w_err _); [exact H3|].
+  unfold trace_commit. up. destruct (_ =? _); [rewrite close_cb_use|]; exact H3.
+Qed.
+
+(* ------------------------------------------------------------------ whole histories *)
+Definition flag_inv (w : world) : Prop :=
+  Forall store_ok (w_log w) /\ (w_err w = false -> c_in_ts (w_c w) = false /\ c_use_ts (w_c w) = false).
+
+Lemma ext_store b w w' : Forall store_ok (w_log w) -> ext (evok b) w w' -> Forall store_ok (w_log w').
+Proof.
+  intros H [seg [E F]]. rewrite E. apply Forall_app. split; auto.
+  eapply Forall_impl; [|exact F]. intros a; apply evok_store.
+Qed.
+
+Lemma step_flag_inv d w k : flag_inv w -> flag_inv (step d w k).
+Proof.
+  intros [HS HF]. unfold step. destruct (w_err w) eqn:Ee; [split; [auto|rewrite Ee; discriminate]|].
+  destruct (HF eq_refl) as [Hin Huse]. clear HF.
+  match goal with |- flag_inv (if w_err ?W then _ else _) =>
+    assert (HW : flag_inv W); [|destruct (w_err W) eqn:Ee2; [exact HW|]] end.
+  2:{ destruct HW as [HS2 HF2]. split; up.
+      - apply Forall_app; split; auto. repeat constructor.
+      - intros _. apply HF2; auto. }
+  destruct k as [ei args| | |b|].
+  - destruct (nth_error (d_erts d) ei) as [e|].
+    + split.
+      * destruct (trace_fn_segment d e args w) as [rest [E F]]. rewrite E.
+        apply Forall_app; split; auto. apply Forall_app; split; [apply entry_seg_store|].
+        eapply Forall_impl; [|exact F]. intros a; apply tevok_store.
+      * intros He. split; [apply trace_fn_flag_off; auto|apply trace_fn_use; auto].
+    + split; up; [|discriminate]. apply Forall_app; split; auto. repeat constructor.
+  - destruct (open_cb_blk d false w Hin) as [A E]. split; [eapply ext_store; eauto|].
+    intros _. split; auto. rewrite open_cb_use; auto.
+  - destruct (close_cb_blk d false w Hin) as [A E]. split; [eapply ext_store; eauto|].
+    intros _. split; auto. rewrite close_cb_use; auto.
+  - split; up; auto.
+  - destruct (_ && _); [|split; auto].
+    destruct (close_cb_blk d false w Hin) as [A E]. split; [eapply ext_store; eauto|].
+    intros _. split; auto. rewrite close_cb_use; auto.
+Qed.
+
+Lemma steps_flag_inv d h w : flag_inv w -> flag_inv (fold_left (step d) h w).
+Proof. revert w. induction h as [|k h IH]; intros w H; cbn [fold_left]; auto. apply IH, step_flag_inv, H. Qed.
+
+Theorem run_flag_inv d buf pcargs oracle h : flag_inv (run d buf pcargs oracle h).
+Proof. unfold run. apply steps_flag_inv. split; [constructor|]. intros _. split; reflexivity. Qed.
+
+(* C16 (a) *)
+Theorem stores_in_section d buf pcargs oracle h :
+  forall f, In (EStore f) (w_log (run d buf pcargs oracle h)) -> f = true.
+Proof.
+  intros f Hin. destruct (run_flag_inv d buf pcargs oracle h) as [HS _].
+  rewrite Forall_forall in HS. apply (HS _ Hin).
+Qed.
+
+(* C16 (c) *)
+Theorem flag_clear_after_call d buf pcargs oracle h :
+  w_err (run d buf pcargs oracle h) = false ->
+  c_in_ts (w_c (run d buf pcargs oracle h)) = false /\ c_use_ts (w_c (run d buf pcargs oracle h)) = false.
+Proof. apply run_flag_inv. Qed.
+
+(* the formulation "every callback entry of the segment except possibly its first event" *)
+Theorem trace_fn_segment_tl d e args w :
+  exists seg, w_log (trace_fn d e args w) = w_log w ++ seg /\ Forall cb_ok (tl seg).
+Proof.
+  destruct (trace_fn_segment d e args w) as [rest [E F]].
+  exists (entry_seg d w ++ rest). split; [exact E|].
+  assert (F' : Forall cb_ok rest) by (eapply Forall_impl; [|exact F]; intros a; apply tevok_cb).
+  unfold entry_seg. destruct (d_has_clock d); cbn [app tl].
+  - constructor; [exact I|exact F'].
+  - destruct rest; cbn [tl]; [constructor|]. inversion F'; auto.
+Qed.
